@@ -17,7 +17,7 @@ hooks_commits = [l.split()[0] for l in hooks_commits if " verif hooks:" in l]
 
 checks = []
 for pid in ALL:
-    if pid not in registry.PROPS:
+    if pid not in registry.PROPS or pid not in registry.CLAIMED:
         continue
     spec = registry.PROPS[pid]
     checks.append(dict(
@@ -31,7 +31,7 @@ for pid in ALL:
         level_note=spec["level_note"],
         technique=spec.get("technique", "bounded model checking of the compiled Rust code (Kani 0.68 -> CBMC 6.11 -> CaDiCaL) with symbolic inputs; UNSAT within stated bounds or a concrete counterexample replayed natively"),
     ))
-na = [dict(property_id=p, reason=registry.NOT_APPLICABLE.get(p, "check not built yet (work in progress in this round)")) for p in ALL if p not in registry.PROPS]
+na = [dict(property_id=p, reason=registry.NOT_APPLICABLE.get(p, "check not built yet (work in progress in this round)")) for p in ALL if p not in registry.PROPS or p not in registry.CLAIMED]
 m = dict(
     version=1,
     setup_cmd="./check setup",
